@@ -44,10 +44,10 @@ def subsets():
     return out
 
 
-def mk_case(n_in, n_out, n_ret, dmode, spec, iv, ov, user, bot, with_options=True):
+def mk_case(n_in, n_out, n_ret, dmode, spec, iv, ov, user, bot, with_options=True, role="assistant"):
     """spec: None (no `rails` key) | ["input", ...] | {"input": bool, ...}"""
     return {"n_in": n_in, "n_out": n_out, "n_ret": n_ret, "dmode": dmode, "opts": spec,
-            "iv": list(iv), "ov": list(ov), "user": user, "bot": bot, "with_options": with_options}
+            "iv": list(iv), "ov": list(ov), "user": user, "bot": bot, "with_options": with_options, "role": role}
 
 
 def effective(case):
@@ -111,6 +111,13 @@ def gen_cases(rng, tier):
         ov = [rng.choice("AARW") for _ in range(no)]
         bot = rng.choice([None, None, BOT_TEXTS[0]])
         cases.append(mk_case(ni, no, nr, dm, spec, iv, ov, rng.choice(USER_TEXTS), bot, wo))
+    # the documentation writes the supplied message with role "bot"; this snapshot only recognises
+    # "assistant" (observed and reported, not judged)
+    for s in (["input", "output"], ["output"]):
+        cases.append(mk_case(1, 1, 0, "flows", s, ["A"], ["A"], USER_TEXTS[0], BOT_TEXTS[0], role="bot"))
+    if os.environ.get("VERIF_SMALL"):
+        rng.shuffle(cases)
+        cases = cases[:700]
     if tier == "thorough":
         vv3 = list(itertools.product("ARW", repeat=3))
         for s in subs:
@@ -411,6 +418,11 @@ def run(tier, seed, replay=None):
         if "driver_error" in obs:
             out.add_broken("correspondence:C16-e2e(driver)", json.dumps({"case": case, "error": obs["driver_error"], "tb": obs.get("tb")}))
             continue
+        if case.get("role", "assistant") != "assistant":
+            k = "supplied bot message written with the documentation's role name `bot` (ignored by generate_async)"
+            o = {"reply": obs.get("reply"), "exc": obs.get("exc"), "rails_saw_None": any(c[1] is None for c in obs["calls"])}
+            observations.setdefault(k, {"count": 0, "sample": o})["count"] += 1
+            continue
         tbl = in_table(case)
         dist["in_table" if tbl else "out_of_table"] += 1
         form = "no_options" if not case["with_options"] else ("absent" if case["opts"] is None else ("list" if isinstance(case["opts"], list) else "dict"))
@@ -474,6 +486,8 @@ def run(tier, seed, replay=None):
     # ---- pure differential of compute_generation_log
     t0 = time.time()
     n_gl = 0 if replay else (2000 if tier == "quick" else 25000)
+    if os.environ.get("VERIF_SMALL") and not replay:
+        n_gl = 400
     plogs = list(genlog_extra) + [gen_plog(rng, real_logs[:400]) for _ in range(n_gl)]
     gl_res, gl_errs = D.run_shards(PID + "_gl", "genlog", plogs, nproc=C.NPROC, timeout=900) if plogs else ([], [])
     for e in gl_errs:
